@@ -42,6 +42,10 @@ const LAYER_PAIRS: &[(&str, &[&str])] = &[
     ("cached-keep", &["absent", "orphan", "bare", "min", "typed", "full", "invalid", "broken"]),
     ("cached-del", &["min", "full"]),
     ("cached-repl", &["invalid"]),
+    // callbacks that depend on what was read from disk: a real migration of the old metadata (invalid / richinv), a
+    // restored_layer_action / existing_layer_strategy / update looking at the metadata and the env read back
+    ("cached-migrate", &["min", "invalid", "richinv", "broken", "stale"]),
+    ("t-migrate", &["min", "full", "invalid", "richinv", "stale"]),
     ("uncached", &["absent", "orphan", "full"]),
     ("wmeta", &["absent", "full"]),
     ("wenv", &["absent", "full"]),
@@ -251,7 +255,7 @@ fn occurrence(log: &[Call], k: usize) -> usize {
     }
 }
 
-const LAYER_STATES: &[&str] = &["absent", "orphan", "bare", "min", "typed", "full", "invalid", "broken", "spdx", "rich", "richinv", "wide", "emptyvals"];
+const LAYER_STATES: &[&str] = &["absent", "orphan", "bare", "min", "typed", "full", "invalid", "broken", "spdx", "rich", "richinv", "wide", "emptyvals", "stale"];
 const PHASE_STATES: &[&str] = &["clean", "existing"];
 
 /// quick: the listed representative pairs; thorough: every operation on every prepared state
